@@ -153,6 +153,24 @@ def mapDense (f : List Char → Except Err (List Char)) : AlnD → Except Err Al
 def denseTakeNeg (s : List Char) (cols : List Int) : List Char :=
   (s.zipIdx.filter fun p => !cols.contains (p.2 : Int)).map (·.1)
 
+/-- columns of a gapped string that do not hold a gap (`get_degapped_relative_to`) -/
+def nonGapCols (s : List Char) : List Int :=
+  (s.zipIdx.filter fun p => !isGap p.1).map fun p => (p.2 : Int)
+
+/-- `sample`: `make_seq("".join(str(seq[loc*ml : (loc+1)*ml]) for loc in locations))` on one row -/
+def rowSample (r : Row) (ml : Int) : List Int → Except Err (List Char)
+  | [] => .ok []
+  | loc :: rest =>
+    match rowSlice r (some (loc * ml)) (some ((loc + 1) * ml)), rowSample r ml rest with
+    | .ok x, .ok tl => .ok (gapped x ++ tl)
+    | .error e, _ => .error e
+    | _, .error e => .error e
+
+/-- the same on a plain string -/
+def denseSample (s : List Char) (ml : Int) : List Int → List Char
+  | [] => []
+  | loc :: rest => PySlice.slice s (some (loc * ml)) (some ((loc + 1) * ml)) 1 ++ denseSample s ml rest
+
 /-! ### operation histories on both classes -/
 
 /-- the operations of a history (on either class) -/
@@ -160,6 +178,7 @@ inductive AOp where
   | slice (a b : Option Int) | int (i : Int) | rc | takeSeqs (names : List String) (neg : Bool)
   | takePositions (cols : List Int) (neg : Bool) | toRna | toDna | addSelf | addCopy
   | keep (locs : List (Int × Int))
+  | degap (name : String) | sample (locs : List Int) (ml : Int) | reparse
 
 /-- one operation on the annotatable class (`dna` tracks DNA vs RNA complementing) -/
 def stepA (dna : Bool) (a : AlnA) : AOp → Except Err (AlnA × Bool)
@@ -174,6 +193,16 @@ def stepA (dna : Bool) (a : AlnA) : AOp → Except Err (AlnA × Bool)
   | .addSelf => .ok (a.map fun p => (p.1, rowAddOther p.2 p.2), dna)
   | .addCopy => .ok (a.map fun p => (p.1, rowAddOther p.2 (rowOfString (gapped p.2))), dna)
   | .keep locs => (mapRows (fun r => rowKeep r locs) a).map (·, dna)
+  -- `get_degapped_relative_to(name)`: `take_positions` of the non-gap columns of that row
+  | .degap name =>
+    match a.find? (·.1 = name) with
+    | none => .error .valueError
+    | some p => (mapRows (fun r => rowTakePositions r (nonGapCols (gapped p.2))) a).map (·, dna)
+  -- `sample` with given locations and motif length: new rows from the joined row slices
+  | .sample locs ml =>
+    (mapRows (fun r => (rowSample r ml locs).map rowOfString) a).map (·, dna)
+  -- `to_type(array_align=True).to_type(array_align=False)`: rows rebuilt from `to_dict()`
+  | .reparse => .ok (a.map fun p => (p.1, rowOfString (gapped p.2)), dna)
 
 /-- the same operation on the dense class = on the plain gapped strings (`none`: not modelled) -/
 def stepD (dna : Bool) (a : AlnD) : AOp → Option (Except Err (AlnD × Bool))
@@ -188,6 +217,12 @@ def stepD (dna : Bool) (a : AlnD) : AOp → Option (Except Err (AlnD × Bool))
   | .addSelf => some (.ok (a.map fun p => (p.1, p.2 ++ p.2), dna))
   | .addCopy => some (.ok (a.map fun p => (p.1, p.2 ++ p.2), dna))
   | .keep _ => none
+  | .degap name =>
+    match a.find? (·.1 = name) with
+    | none => some (.error .valueError)
+    | some p => some ((mapDense (fun s => denseTake s (nonGapCols p.2)) a).map (·, dna))
+  | .sample locs ml => some (.ok (a.map fun p => (p.1, denseSample p.2 ml locs), dna))
+  | .reparse => some (.ok (a, dna))
 
 /-- a whole history on the annotatable class -/
 def runA (dna : Bool) (a : AlnA) : List AOp → Except Err (AlnA × Bool)
